@@ -204,8 +204,10 @@ class UnitsEngine(Engine):
             e1, e2 = self._same_dim_pair(ctx)
             return {'op': 'convert', 'e1': e1, 'e2': e2, 'x': r.choice([1.0, r.uniform(-100, 100), 10 ** r.uniform(-6, 6)])}
         if k == 'literal':
-            val = r.choice(['1.5', '-2', '3e-2', '[1.0, 2.0, 3.0]', '[[1, 2], [3, 4]]', '0'])
-            u = r.choice(['', 'eV', 'angstrom', 'm/s', 'kg*m / s^2', 'GPa', 'eV/angstrom^3', ' nm '])
+            val = r.choice(['1.5', '-2', '3e-2', '[1.0, 2.0, 3.0]', '[[1, 2], [3, 4]]', '0', '(1, 2, 3)', '(7,)', '((1, 2), (3, 4))',
+                            '(0.5, -1.5)', '[ 1.0 , 2.0 ]', '2.5E+1', '.5', '-.25e1'])
+            u = r.choice(['', 'eV', 'angstrom', 'm/s', 'kg*m / s^2', 'GPa', 'eV/angstrom^3', ' nm ', 'J/(m^2)', 'kcal/(mol*angstrom)',
+                          '(m/s)^2', 'eV/(angstrom^3)', '(kg*m)/(s^2)'])
             return {'op': 'literal', 'value': val, 'unit': u, 'gap': r.choice([' ', '  '])}
         if k == 'style':
             return {'op': 'style', 'style': r.choice(STYLES)}
